@@ -481,7 +481,12 @@ def run_case(run, case, deadline=None):
 
     def body(c):
         w = SymWorld(c)
-        outs = case.run(w)
+        try:
+            outs = case.run(w)
+        except (symx.PathAbort, symx.PathCap, Unsupported):
+            raise
+        except Exception as e:           # the real code raised on this symbolic path: a candidate violation
+            return w, _Raised(e, traceback.format_exc())
         case.claims(w, outs)
         return w, outs
 
@@ -496,6 +501,11 @@ def run_case(run, case, deadline=None):
             continue
         w, outs = res
         symx.CUR[0] = c
+        if isinstance(outs, _Raised):
+            if not agg.get("%s.no-exception" % case.name, {}).get("sat"):
+                _handle_raised(run, case, c, w, outs, note)
+            symx.CUR[0] = None
+            continue
         try:
             r0, _m0 = c.reachable(True)
             if r0 == "unsat":
@@ -561,6 +571,41 @@ def run_case(run, case, deadline=None):
     if n_paths == 0:
         run.error(case.name, "no feasible path")
     return stats
+
+
+class _Raised:
+    def __init__(self, exc, tb):
+        self.exc, self.tb = exc, tb
+
+
+def _handle_raised(run, case, c, w, raised, note):
+    """The real code raised under symbolic execution. Reproduce on real numpy with a model of the path."""
+    nm = "%s.no-exception" % case.name
+    if case.expected_exception(raised.exc):
+        note(nm, "unsat", "(expected exception path)")
+        return
+    r, m = c.reachable(True)
+    if r == "unsat":
+        return
+    hints = list(w.hints) + list(c.model_hints)
+    if r == "sat" and hints:
+        r2, m2 = c._check(*(c.forall_instances() + hints))
+        if r2 == "sat":
+            m = m2
+    if r != "sat":
+        note(nm, "unknown", "real code raised %s under symbolic execution; path model is %s" % (type(raised.exc).__name__, r))
+        return
+    try:
+        rw, routs, exc = _real_run(case, m)
+    except Unsupported as e:
+        note(nm, "unknown", "exception path not replayable: %s" % e)
+        return
+    if exc is not None and type(exc).__name__ == type(raised.exc).__name__:
+        what = "real code raises %s: %s" % (type(exc).__name__, exc)
+        _report(run, case, c, m, nm, "%s:raises-%s" % (case.name, type(exc).__name__), what, note, rw=rw)
+    else:
+        note(nm, "unknown", "exception under symbolic execution did not reproduce on real numpy: %s" % raised.tb[-600:])
+        run.errors.append((nm, "symbolic-only exception: %s" % raised.tb[-1500:]))
 
 
 def _mod_lemmas(c, stats):
